@@ -382,4 +382,21 @@ example :
       [⟨"/r/srv/conf".toList, "site.conf".toList, 7⟩, ⟨"/r/srv/conf".toList, "._cfg0000_site.conf".toList, 2⟩] := by
   decide +kernel
 
+/-- **A protected file reached through a directory symlink is not overwritten either.**  The trigger decides on the
+names (`live`, `install`: what `install_existing` and `install` hold), the merge writes through the links
+(`through ρ`): the real file behind the protected name still holds its content. -/
+theorem protected_never_overwritten_through_links (ρ : Path → Path) (hinj : ∀ a b, ρ a = ρ b → a = b)
+    (s : Settings) (live : Live) (install : ICSet) (hwf : LiveWF live)
+    (f : LiveFile) (hf : f ∈ live) (hprot : s.protectedLoc f.path = true)
+    (hreg : ∀ e ∈ install, e.dir = f.dir → e.base = f.base → e.isReg = true)
+    (hsmall : ∀ g ∈ live, ∀ k fn, parseCfg g.base = some (k, fn) → k < 9999) :
+    Live.lookup (mergeFs (live.map (LiveFile.through ρ)) ((protectInstall s live install).1.map (IEntry.through ρ)))
+      (ρ f.dir) f.base = some f.content := by
+  rw [mergeFs_through ρ hinj, lookup_through ρ hinj]
+  exact protected_never_overwritten s live install hwf f hf hprot hreg hsmall
+
+example : (∀ a b : Path, (fun d : Path => "/srv".toList ++ d) a = (fun d : Path => "/srv".toList ++ d) b → a = b) ∧
+    (LiveFile.through (fun d => "/srv".toList ++ d) ⟨"/r/etc".toList, "foo".toList, 1⟩).dir = "/srv/r/etc".toList :=
+  ⟨fun _ _ h => List.append_cancel_left h, by decide⟩
+
 end Pkgcore.C21
